@@ -214,13 +214,11 @@ func addVirtualTableHelper(vTableMap map[string]struct{}, orgid int64) (bool, er
 	defer fd.Close()
 
 	for tname := range vTablesToAppend {
-		if _, err := fd.WriteString(tname); err != nil {
+		// name and line end in one write: a crash between two writes left the name without its line end
+		// and the next name added after the restart was fused with it
+		if _, err := fd.WriteString(tname + "\n"); err != nil {
 			log.Errorf("AddVirtualTable: Failed to write virtual tablename=%v, in file=%v, err=%v", tname, vTableFileName, err)
 
-			return false, err
-		}
-		if _, err := fd.WriteString("\n"); err != nil {
-			log.Errorf("AddVirtualTable: Failed to write \n to virtual tablename=%v, in file=%v, err=%v", tname, vTableFileName, err)
 			return false, err
 		}
 	}
